@@ -84,9 +84,11 @@ class World:
         self.fired[kind] = self.fired.get(kind, 0) + 1
 
     # ---- virtual /dev
-    def plug(self, path, target):
-        self.next_ino += 1
-        node = Node(path, self.next_ino, target)
+    def plug(self, path, target, ino=None):
+        if ino is None:
+            self.next_ino += 1
+            ino = self.next_ino
+        node = Node(path, ino, target)
         self.nodes[path] = node
         self.ev("vfs.plug", path=path, ino=node.ino, dev_type=getattr(target, "dev_type", None))
         return node
@@ -96,12 +98,12 @@ class World:
         self.ev("vfs.unplug", path=path, ino=node.ino if node else None)
         return node
 
-    def replug(self, path, target=None):
+    def replug(self, path, target=None, ino=None):
         old = self.nodes.get(path)
         if target is None and old is not None:
             target = old.target
         self.ev("vfs.replug", path=path)
-        return self.plug(path, target)
+        return self.plug(path, target, ino)
 
     # ---- faults
     def arm(self, fault):
@@ -110,7 +112,7 @@ class World:
 
     def take_fault(self, kinds):
         for i, f in enumerate(self.armed):
-            if f["kind"] in kinds:
+            if f["kind"] in kinds and f.get("thread") in (None, self.current_thread):
                 del self.armed[i]
                 self.fire(f["kind"])
                 return f
@@ -395,15 +397,18 @@ def make_sgio():
             W.ev("sgio.cmd", error="EBADF")
             raise OSError(_errno.EBADF, "Bad file descriptor")
         node_now = W.nodes.get(h.name)
-        extra = dict(hid=h.hid, handle_ino=h.ino, path_ino=node_now.ino if node_now else None)
+        extra = dict(hid=h.hid, handle_ino=h.ino, path_ino=node_now.ino if node_now else None, same_node=node_now is h.node)
         status, sense, datain, err = _deliver("sgio", h.node.target, bytes(cdb),
                                               bytes(data_out) if out_len else b"", in_len, extra)
+        if W.deliveries:
+            W.deliveries[-1]["binding_data_in_obj"] = data_in
+            W.deliveries[-1]["binding_data_out_obj"] = data_out
         if err is not None:
             raise err
         if status == 0x00:
             n = min(len(datain), in_len)
             if n:
-                data_in[:n] = datain[:n]
+                memoryview(data_in)[:n] = datain[:n]
             resid = in_len - n
             if return_sense_buffer:
                 return resid, None
@@ -411,7 +416,7 @@ def make_sgio():
         if status == 0x02 and sense:
             n = min(len(datain), in_len)
             if n:
-                data_in[:n] = datain[:n]
+                memoryview(data_in)[:n] = datain[:n]
             W.deliveries[-1]["handed"] = bytes(sense[:max_sense_data_length])
             raise CheckConditionError(bytes(sense[:max_sense_data_length]))
         raise UnspecifiedError()
@@ -521,6 +526,9 @@ def make_iscsi():
             elif task.direction == m.SCSI_XFER_READ:
                 xfer_in = task.xferlen
             status, sense, datain, err = _deliver("iscsi", lu, task.cdb, dataout, xfer_in, dict(cid=self.cid, dir=task.direction))
+            if WORLD.deliveries:
+                WORLD.deliveries[-1]["binding_data_in_obj"] = data_in
+                WORLD.deliveries[-1]["binding_data_out_obj"] = data_out
             if err is not None:
                 raise err
             task.status = status
@@ -529,7 +537,7 @@ def make_iscsi():
             if datain and data_in is not None:
                 n = min(len(datain), len(data_in), task.xferlen)
                 if n:
-                    data_in[:n] = datain[:n]
+                    memoryview(data_in)[:n] = datain[:n]
 
     m.Task = Task
     m.URL = URL
